@@ -14,6 +14,7 @@ import Mathlib.Tactic.Linarith
 import Mathlib.Tactic.LinearCombination
 
 set_option linter.unusedSectionVars false
+set_option linter.unnecessarySeqFocus false
 
 open Finset
 
@@ -786,6 +787,285 @@ theorem run_outputs_eq_map {S Op Out : Type} (step : S → Op → S × Out) (Inv
 
 end hist
 
+
+/-! ### pointwise laws: total recorded weight, kernel products -/
+section pointwise
+variable {K : Type} [Field K] [LinearOrder K]
+
+/-- total weight recorded under `key` (all entries with that key) -/
+def wt {σ : Type} [DecidableEq σ] : Dist σ K → σ → K
+  | [], _ => 0
+  | e :: rest, key => (if e.1 = key then e.2 else 0) + wt rest key
+
+def keys {σ : Type} (d : Dist σ K) : List σ := d.map Prod.fst
+
+section generic
+variable {σ : Type} [DecidableEq σ]
+
+theorem wt_bump (d : Dist σ K) (key : σ) (p : K) (key' : σ) :
+    wt (bump d key p) key' = wt d key' + if key = key' then p else 0 := by
+  induction d with
+  | nil => simp [bump, wt]
+  | cons e rest ih =>
+    obtain ⟨k, v⟩ := e
+    simp only [bump]
+    by_cases hk : k = key
+    · subst hk
+      simp only [if_true, wt]
+      by_cases hk' : k = key' <;> simp [hk'] <;> ring
+    · simp only [hk, if_false, wt, ih]; ring
+
+theorem wt_addP (minP : K) (d : Dist σ K) (key : σ) (p : K) (key' : σ) :
+    wt (addP minP d key p) key' = wt d key' + if key = key' then keep minP p else 0 := by
+  unfold addP keep
+  split
+  · rw [wt_bump]
+  · simp
+
+theorem wt_of_not_mem (d : Dist σ K) (key : σ) (h : key ∉ keys d) : wt d key = 0 := by
+  induction d with
+  | nil => rfl
+  | cons e rest ih =>
+    simp only [keys, List.map_cons, List.mem_cons, not_or] at h
+    have h1 : ¬ e.1 = key := fun e' => h.1 e'.symm
+    simp only [wt, if_neg h1, zero_add]
+    exact ih h.2
+
+/-- without duplicate keys, the dictionary read `d[key]` is the total recorded weight -/
+theorem prob_eq_wt (d : Dist σ K) (h : (keys d).Nodup) (key : σ) : prob d key = wt d key := by
+  induction d with
+  | nil => rfl
+  | cons e rest ih =>
+    obtain ⟨k, v⟩ := e
+    simp only [keys, List.map_cons, List.nodup_cons] at h
+    simp only [prob, wt]
+    by_cases hk : k = key
+    · subst hk
+      simp only [if_true]
+      rw [wt_of_not_mem rest k h.1, add_zero]
+    · simp only [hk, if_false, zero_add]
+      exact ih h.2
+
+theorem keys_bump (d : Dist σ K) (key : σ) (p : K) :
+    keys (bump d key p) = if key ∈ keys d then keys d else keys d ++ [key] := by
+  induction d with
+  | nil => simp [bump, keys]
+  | cons e rest ih =>
+    obtain ⟨k, v⟩ := e
+    simp only [bump]
+    by_cases hk : k = key
+    · subst hk; simp [keys]
+    · have hk' : ¬ key = k := fun h => hk h.symm
+      simp only [hk, if_false]
+      have : keys ((k, v) :: bump rest key p) = k :: keys (bump rest key p) := rfl
+      rw [this, ih]
+      simp only [keys, List.map_cons, List.mem_cons, hk', false_or]
+      by_cases hm : key ∈ List.map Prod.fst rest <;> simp [hm]
+
+theorem nodup_bump {d : Dist σ K} (h : (keys d).Nodup) (key : σ) (p : K) :
+    (keys (bump d key p)).Nodup := by
+  rw [keys_bump]
+  split
+  · exact h
+  · next hn =>
+    rw [List.nodup_append]
+    refine ⟨h, List.nodup_singleton _, ?_⟩
+    intro a ha b hb
+    simp only [List.mem_singleton] at hb
+    subst hb
+    intro e; subst e; exact hn ha
+
+theorem nodup_addP {d : Dist σ K} (h : (keys d).Nodup) (minP : K) (key : σ) (p : K) :
+    (keys (addP minP d key p)).Nodup := by
+  unfold addP; split
+  · exact nodup_bump h key p
+  · exact h
+
+theorem sum_map_ite_key (d : Dist σ K) (k : σ) (c : K) :
+    (d.map fun e => e.2 * (if e.1 = k then c else 0)).sum = wt d k * c := by
+  induction d with
+  | nil => simp [wt]
+  | cons e d ih =>
+    simp only [List.map_cons, List.sum_cons, ih, wt]
+    by_cases h : e.1 = k <;> simp [h] <;> ring
+
+theorem wt_filter_pos [IsStrictOrderedRing K] (d : Dist σ K) (h : Nonneg d) (k : σ) :
+    wt (d.filter fun e => 0 < e.2) k = wt d k := by
+  induction d with
+  | nil => rfl
+  | cons e d ih =>
+    have he : 0 ≤ e.2 := h e (by simp)
+    have hd : Nonneg d := fun x hx => h x (by simp [hx])
+    simp only [List.filter_cons]
+    split
+    · simp [wt, ih hd]
+    · next hlt =>
+      have : e.2 = 0 := le_antisymm (not_lt.mp (by simpa using hlt)) he
+      simp [wt, ih hd, this]
+
+theorem wt_normalize (d : Dist σ K) (k : σ) : wt (normalize d) k = wt d k / (if mass d = 0 then 1 else mass d) := by
+  unfold normalize
+  split
+  · simp
+  · have : ∀ (c : K) (l : Dist σ K), wt (l.map fun e => (e.1, e.2 / c)) k = wt l k / c := by
+      intro c l
+      induction l with
+      | nil => simp [wt]
+      | cons e l ih =>
+        simp only [List.map_cons, wt, ih]
+        by_cases h : e.1 = k <;> simp [h] <;> ring
+    rw [this]
+
+theorem keys_normalize (d : Dist σ K) : keys (normalize d) = keys d := by
+  unfold normalize keys
+  split
+  · rfl
+  · simp [List.map_map, Function.comp_def]
+
+end generic
+
+/-- weight of the output state `t` under the product of the one-mode factors `fs`
+(zero unless `t` has exactly one entry per factor) -/
+def kprod : List (Dist ℕ K) → List ℕ → K
+  | [], [] => 1
+  | d :: ds, k :: t => wt d k * kprod ds t
+  | _, _ => 0
+
+/-- weight of `t` among the completions of the prefix `cur` by the factors `fs` -/
+def sufw (fs : List (Dist ℕ K)) : List ℕ → List ℕ → K
+  | [], t => kprod fs t
+  | _ :: _, [] => 0
+  | c :: cur, k :: t => if c = k then sufw fs cur t else 0
+
+theorem sufw_nil_fs (cur t : List ℕ) : sufw ([] : List (Dist ℕ K)) cur t = if cur = t then 1 else 0 := by
+  induction cur generalizing t with
+  | nil => cases t <;> simp [sufw, kprod]
+  | cons c cur ih =>
+    cases t with
+    | nil => simp [sufw]
+    | cons k t =>
+      simp only [sufw, ih, List.cons.injEq]
+      by_cases h : c = k <;> simp [h]
+
+theorem sufw_cons_fs (d : Dist ℕ K) (rest : List (Dist ℕ K)) (cur t : List ℕ) :
+    sufw (d :: rest) cur t = (d.map fun e => e.2 * sufw rest (cur ++ [e.1]) t).sum := by
+  induction cur generalizing t with
+  | nil =>
+    cases t with
+    | nil => simp [sufw, kprod]
+    | cons k u =>
+      simp only [sufw, List.nil_append, kprod]
+      rw [sum_map_ite_key]
+  | cons c cur ih =>
+    cases t with
+    | nil => simp [sufw]
+    | cons k u =>
+      simp only [List.cons_append, sufw]
+      by_cases h : c = k
+      · simp only [h, if_true]; exact ih u
+      · simp [h]
+
+variable [IsStrictOrderedRing K]
+
+theorem innerTensor_wt (fs : List (Dist ℕ K)) (hnn : ∀ d ∈ fs, Nonneg d) :
+    ∀ (cur : List ℕ) (p : K), 0 ≤ p → ∀ (res : Dist (List ℕ) K) (t : List ℕ),
+      wt (innerTensor fs cur p res) t = wt res t + p * sufw fs cur t := by
+  induction fs with
+  | nil =>
+    intro cur p _ res t
+    simp only [innerTensor, wt_bump, sufw_nil_fs]
+    by_cases h : cur = t <;> simp [h]
+  | cons d rest ih =>
+    intro cur p hp res t
+    have hd : Nonneg d := hnn d (by simp)
+    have hrest : ∀ d' ∈ rest, Nonneg d' := fun d' h => hnn d' (by simp [h])
+    have key : ∀ (l : Dist ℕ K), Nonneg l → ∀ res : Dist (List ℕ) K,
+        wt (l.foldl (fun acc e => if p * e.2 < 0 then acc
+            else innerTensor rest (cur ++ [e.1]) (p * e.2) acc) res) t
+          = wt res t + p * (l.map fun e => e.2 * sufw rest (cur ++ [e.1]) t).sum := by
+      intro l
+      induction l with
+      | nil => intro _ res; simp
+      | cons e l ihl =>
+        intro hl res
+        have he : 0 ≤ e.2 := hl e (by simp)
+        have hpe : 0 ≤ p * e.2 := mul_nonneg hp he
+        have hl' : Nonneg l := fun x hx => hl x (by simp [hx])
+        simp only [List.foldl_cons, if_neg (not_lt.mpr hpe)]
+        rw [ihl hl', ih hrest (cur ++ [e.1]) (p * e.2) hpe res t]
+        simp only [List.map_cons, List.sum_cons]
+        ring
+    simp only [innerTensor]
+    rw [key d hd res, sufw_cons_fs]
+
+theorem wt_lift (d : Dist ℕ K) (t : List ℕ) :
+    wt (d.map fun e => ([e.1], e.2)) t = kprod [d] t := by
+  induction d with
+  | nil =>
+    cases t with
+    | nil => simp [wt, kprod]
+    | cons k u => cases u <;> simp [wt, kprod]
+  | cons e d ih =>
+    simp only [List.map_cons, wt, ih]
+    cases t with
+    | nil => simp [kprod]
+    | cons k u =>
+      cases u with
+      | nil => simp [kprod, wt]
+      | cons k' u' => simp [kprod]
+
+theorem kprod_of_nil_mem (fs : List (Dist ℕ K)) (h : [] ∈ fs) (t : List ℕ) : kprod fs t = 0 := by
+  induction fs generalizing t with
+  | nil => simp at h
+  | cons d rest ih =>
+    cases t with
+    | nil => simp [kprod]
+    | cons k u =>
+      simp only [List.mem_cons] at h
+      rcases h with h | h
+      · subst h; simp [kprod, wt]
+      · simp [kprod, ih h u]
+
+theorem kprod_map_congr (g : Dist ℕ K → Dist ℕ K) (fs : List (Dist ℕ K))
+    (h : ∀ d ∈ fs, ∀ k, wt (g d) k = wt d k) (t : List ℕ) : kprod (fs.map g) t = kprod fs t := by
+  induction fs generalizing t with
+  | nil => rfl
+  | cons d rest ih =>
+    cases t with
+    | nil => simp [kprod]
+    | cons k u =>
+      simp only [List.map_cons, kprod, h d (by simp) k, ih (fun d' hd' => h d' (by simp [hd'])) u]
+
+/-- `list_tensor_product` of non-negative one-mode factors: the weight of every output state is
+the product of the factors' weights -/
+theorem listTensor_wt (ds : List (Dist ℕ K)) (hne : ds ≠ []) (hnn : ∀ d ∈ ds, Nonneg d)
+    (t : List ℕ) : wt (listTensor ds) t = kprod ds t := by
+  match ds, hne, hnn with
+  | [d], _, _ => exact wt_lift d t
+  | d1 :: d2 :: rest, _, hnn =>
+    have hunf : listTensor (d1 :: d2 :: rest) =
+        if (d1 :: d2 :: rest).any (·.isEmpty) then []
+        else innerTensor ((d1 :: d2 :: rest).map fun d => d.filter fun e => 0 < e.2) [] 1 [] := rfl
+    rw [hunf]
+    split
+    · next hany =>
+      rw [List.any_eq_true] at hany
+      obtain ⟨d, hd, he⟩ := hany
+      have : d = [] := by simpa using he
+      subst this
+      rw [kprod_of_nil_mem _ hd]; rfl
+    · have hf : ∀ d ∈ (d1 :: d2 :: rest).map (fun d => d.filter fun e => 0 < e.2), Nonneg d := by
+        intro d hd
+        simp only [List.mem_map] at hd
+        obtain ⟨d', hd', rfl⟩ := hd
+        intro e he
+        exact hnn d' hd' e (List.mem_of_mem_filter he)
+      rw [innerTensor_wt _ hf [] 1 zero_le_one [] t]
+      simp only [wt, zero_add, one_mul, sufw]
+      exact kprod_map_congr _ _ (fun d hd k => wt_filter_pos d (hnn d hd) k) t
+
+end pointwise
+
 /-! ### kernels, tensor product, `simulate_detectors` -/
 section sim
 variable {K : Type} [Field K] [LinearOrder K] [IsStrictOrderedRing K]
@@ -1043,5 +1323,563 @@ theorem mass_normalize {σ : Type} (d : Dist σ K) (h : mass d ≠ 0) : mass (no
 theorem detTypeLoop_nil_pnr : detectionType ([] : List (AnyDet K)) = .PNR := rfl
 
 end sim
+
+
+/-! ### results of `detect` have no duplicate keys -/
+section nodup
+variable {K : Type} [Field K] [LinearOrder K]
+
+theorem detectWired_nodup (w mx : ℕ) (minP : K) (n : ℕ) : (keys (detectWired w mx minP n)).Nodup := by
+  unfold detectWired
+  simp only []
+  apply nodup_addP
+  have : ∀ (is : List ℕ) (acc : Dist ℕ K × K), (keys acc.1).Nodup →
+      (keys (detectLoop w n minP is acc).1).Nodup := by
+    intro is
+    unfold detectLoop
+    induction is with
+    | nil => intro acc h; exact h
+    | cons i is ih => intro acc h; simp only [List.foldl_cons]; exact ih _ (nodup_addP h _ _ _)
+  exact this _ _ (by simp [keys])
+
+theorem aggregate_nodup (d : Dist (List ℕ) K) : (keys (aggregate d)).Nodup := by
+  unfold aggregate
+  have : ∀ out : Dist ℕ K, (keys out).Nodup →
+      (keys (d.foldl (fun out e => bump out (clicks e.1) e.2) out)).Nodup := by
+    induction d with
+    | nil => intro out h; exact h
+    | cons e d ih => intro out h; simp only [List.foldl_cons]; exact ih _ (nodup_bump h _ _)
+  exact this [] (by simp [keys])
+
+theorem kernel_nodup (minP : K) (d : AnyDet K) (n : ℕ) : (keys (d.kernel minP n)).Nodup := by
+  have hstate : ∀ k : ℕ, (keys ([(k, (1 : K))] : Dist ℕ K)).Nodup := fun k => by simp [keys]
+  cases d with
+  | none => exact hstate n
+  | det d =>
+    simp only [AnyDet.kernel, AnyDet.detect, Det.detect]
+    split
+    · exact hstate n
+    · split
+      · exact hstate 1
+      · cases d with
+        | pnr => exact hstate n
+        | wired w mx => exact detectWired_nodup w mx minP n
+  | bs L r =>
+    simp only [AnyDet.kernel, AnyDet.detect, bsDetect]
+    split
+    · exact hstate n
+    · exact aggregate_nodup _
+
+end nodup
+
+/-! ### `simulate_detectors`, pointwise -/
+section simPointwise
+variable {K : Type} [Field K] [LinearOrder K] [IsStrictOrderedRing K]
+
+/-- the one-mode kernels of one input state: `zip(s, detectors)` -/
+def kernels (minP : K) (ds : List (AnyDet K)) (s : List ℕ) : List (Dist ℕ K) :=
+  List.zipWith (fun n d => d.kernel minP n) s ds
+
+theorem kernels_spec {minP : K} (hmin : minP ≤ 0) (ds : List (AnyDet K)) (hwf : ∀ d ∈ ds, d.WF)
+    (s : List ℕ) : ∀ k ∈ kernels minP ds s, mass k = 1 ∧ Nonneg k := by
+  intro k hk
+  unfold kernels at hk
+  rw [List.mem_iff_getElem] at hk
+  obtain ⟨i, hi, rfl⟩ := hk
+  rw [List.getElem_zipWith]
+  exact kernel_mass_one hmin _ (hwf _ (List.getElem_mem _)) _
+
+theorem kernels_ne_nil (minP : K) {ds : List (AnyDet K)} (hne : ds ≠ []) {s : List ℕ}
+    (hlen : s.length = ds.length) : kernels minP ds s ≠ [] := by
+  intro h
+  have := congrArg List.length h
+  simp only [kernels, List.length_zipWith, hlen, Nat.min_self, List.length_nil] at this
+  exact hne (List.length_eq_zero_iff.mp this)
+
+theorem stateDist_wt {minP : K} (hmin : minP ≤ 0) (ds : List (AnyDet K)) (hwf : ∀ d ∈ ds, d.WF)
+    (s : List ℕ) (hlen : s.length = ds.length) (hne : ds ≠ []) (t : List ℕ) :
+    wt (stateDist minP ds s) t = kprod (kernels minP ds s) t :=
+  listTensor_wt _ (kernels_ne_nil minP hne hlen) (fun d hd => (kernels_spec hmin ds hwf s d hd).2) t
+
+theorem simState_wt {minP : K} (hmin : minP ≤ 0) (minPhotons : Option ℕ) {p : K} (hp : 0 ≤ p)
+    (sd : Dist (List ℕ) K) (hsd : Nonneg sd) (a : Acc K) (t : List ℕ) :
+    wt (simState minP minPhotons p sd a).1 t
+      = wt a.1 t + if belowFilter minPhotons t then 0 else p * wt sd t := by
+  unfold simState
+  induction sd generalizing a with
+  | nil => simp [wt]
+  | cons o sd ih =>
+    have ho : 0 ≤ o.2 := hsd o (by simp)
+    have hsd' : Nonneg sd := fun x hx => hsd x (by simp [hx])
+    simp only [List.foldl_cons]
+    rw [ih hsd']
+    by_cases hb : belowFilter minPhotons o.1 = true
+    · simp only [hb, if_true, wt]
+      by_cases ht : o.1 = t
+      · subst ht; simp [hb]
+      · simp [ht]
+    · simp only [hb, Bool.false_eq_true, if_false, wt_addP, wt,
+        keep_of_nonpos hmin (mul_nonneg hp ho)]
+      by_cases ht : o.1 = t
+      · subst ht; simp [hb]; ring
+      · simp [ht]
+
+theorem simState_nodup (minP : K) (minPhotons : Option ℕ) (p : K) (sd : Dist (List ℕ) K) (a : Acc K)
+    (h : (keys a.1).Nodup) : (keys (simState minP minPhotons p sd a).1).Nodup := by
+  unfold simState
+  induction sd generalizing a with
+  | nil => exact h
+  | cons o sd ih =>
+    simp only [List.foldl_cons]
+    apply ih
+    split
+    · exact h
+    · exact nodup_addP h _ _ _
+
+theorem simGeneral_wt {minP : K} (hmin : minP ≤ 0) (minPhotons : Option ℕ) (ds : List (AnyDet K))
+    (hwf : ∀ d ∈ ds, d.WF) (hne : ds ≠ []) (dist : Dist (List ℕ) K) (hnn : Nonneg dist)
+    (hlen : ∀ e ∈ dist, e.1.length = ds.length) (t : List ℕ) :
+    wt (simGeneral minP minPhotons ds dist).1 t
+      = if belowFilter minPhotons t then 0
+        else (dist.map fun e => e.2 * kprod (kernels minP ds e.1) t).sum := by
+  unfold simGeneral
+  have : ∀ a : Acc K, wt (dist.foldl (fun a e =>
+      simState minP minPhotons e.2 (stateDist minP ds e.1) a) a).1 t
+      = wt a.1 t + if belowFilter minPhotons t then 0
+        else (dist.map fun e => e.2 * kprod (kernels minP ds e.1) t).sum := by
+    induction dist with
+    | nil => intro a; simp
+    | cons e dist ih =>
+      intro a
+      have he : 0 ≤ e.2 := hnn e (by simp)
+      obtain ⟨_, n1⟩ := stateDist_mass_one hmin ds hwf e.1 (hlen e (by simp)) hne
+      simp only [List.foldl_cons]
+      rw [ih (fun x hx => hnn x (by simp [hx])) (fun x hx => hlen x (by simp [hx])),
+        simState_wt hmin minPhotons he _ n1, stateDist_wt hmin ds hwf e.1 (hlen e (by simp)) hne]
+      simp only [List.map_cons, List.sum_cons]
+      split <;> ring
+  rw [this]; simp [wt]
+
+theorem simGeneral_nodup (minP : K) (minPhotons : Option ℕ) (ds : List (AnyDet K))
+    (dist : Dist (List ℕ) K) : (keys (simGeneral minP minPhotons ds dist).1).Nodup := by
+  unfold simGeneral
+  have : ∀ a : Acc K, (keys a.1).Nodup → (keys (dist.foldl (fun a e =>
+      simState minP minPhotons e.2 (stateDist minP ds e.1) a) a).1).Nodup := by
+    induction dist with
+    | nil => intro a h; exact h
+    | cons e dist ih =>
+      intro a h
+      simp only [List.foldl_cons]
+      exact ih _ (simState_nodup minP minPhotons e.2 _ a h)
+  exact this _ (by simp [keys])
+
+theorem simThreshold_wt (minPhotons : Option ℕ) (dist : Dist (List ℕ) K) (t : List ℕ) :
+    wt (simThreshold minPhotons dist).1 t
+      = if belowFilter minPhotons t then 0
+        else (dist.map fun e => e.2 * (if e.1.map (min · 1) = t then 1 else 0)).sum := by
+  unfold simThreshold
+  have : ∀ a : Acc K, wt (dist.foldl (fun a e =>
+      if belowFilter minPhotons (e.1.map (min · 1)) then (a.1, a.2 - e.2)
+      else (bump a.1 (e.1.map (min · 1)) e.2, a.2)) a).1 t
+      = wt a.1 t + if belowFilter minPhotons t then 0
+        else (dist.map fun e => e.2 * (if e.1.map (min · 1) = t then 1 else 0)).sum := by
+    induction dist with
+    | nil => intro a; simp
+    | cons e dist ih =>
+      intro a
+      simp only [List.foldl_cons]
+      rw [ih]
+      simp only [List.map_cons, List.sum_cons]
+      by_cases hb : belowFilter minPhotons (e.1.map (min · 1)) = true
+      · simp only [hb, if_true]
+        by_cases ht : e.1.map (min · 1) = t
+        · subst ht; simp [hb]
+        · simp [ht]
+      · simp only [hb, Bool.false_eq_true, if_false, wt_bump]
+        by_cases ht : e.1.map (min · 1) = t
+        · subst ht; simp [hb]; ring
+        · simp [ht]
+  rw [this]; simp [wt]
+
+theorem simThreshold_nodup (minPhotons : Option ℕ) (dist : Dist (List ℕ) K) :
+    (keys (simThreshold (K := K) minPhotons dist).1).Nodup := by
+  unfold simThreshold
+  have : ∀ a : Acc K, (keys a.1).Nodup → (keys (dist.foldl (fun a e =>
+      if belowFilter minPhotons (e.1.map (min · 1)) then (a.1, a.2 - e.2)
+      else (bump a.1 (e.1.map (min · 1)) e.2, a.2)) a).1).Nodup := by
+    induction dist with
+    | nil => intro a h; exact h
+    | cons e dist ih =>
+      intro a h
+      simp only [List.foldl_cons]
+      apply ih
+      split
+      · exact h
+      · exact nodup_bump h _ _
+  exact this _ (by simp [keys])
+
+/-- a detector of threshold type has the point kernel `n ↦ min n 1` -/
+theorem kernel_of_threshold (minP : K) (d : AnyDet K) (h : d.type = .Threshold) (n : ℕ) :
+    d.kernel minP n = [(min n 1, 1)] := by
+  cases d with
+  | none => simp [AnyDet.type] at h
+  | det d =>
+    cases d with
+    | pnr => simp [AnyDet.type, Det.type] at h
+    | wired w mx =>
+      have hw : w = 1 := by
+        by_contra hne
+        simp [AnyDet.type, Det.type, hne] at h
+      simp only [AnyDet.kernel, AnyDet.detect]
+      rw [detect_wired_small w mx minP (Or.inr hw)]
+      rfl
+  | bs L r => simp [AnyDet.type] at h
+
+theorem kprod_threshold (minP : K) (ds : List (AnyDet K)) (h : ∀ d ∈ ds, d.type = .Threshold)
+    (s : List ℕ) (hlen : s.length = ds.length) (t : List ℕ) :
+    kprod (kernels minP ds s) t = if s.map (min · 1) = t then 1 else 0 := by
+  induction ds generalizing s t with
+  | nil =>
+    have : s = [] := List.length_eq_zero_iff.mp hlen
+    subst this
+    cases t <;> simp [kernels, kprod]
+  | cons d ds ih =>
+    cases s with
+    | nil => simp at hlen
+    | cons n s =>
+      have hk : kernels minP (d :: ds) (n :: s) = d.kernel minP n :: kernels minP ds s := rfl
+      rw [hk, kernel_of_threshold minP d (h d (by simp))]
+      cases t with
+      | nil => simp [kprod]
+      | cons k u =>
+        simp only [kprod, wt, List.map_cons, List.cons.injEq,
+          ih (fun d' hd' => h d' (by simp [hd'])) s (by simpa using hlen) u]
+        by_cases h1 : min n 1 = k <;> simp [h1]
+
+theorem detTypeLoop_threshold_all (ds : List (AnyDet K)) (t : DType)
+    (h : detTypeLoop (some t) ds = .Threshold) : t = .Threshold ∧ ∀ d ∈ ds, d.type = .Threshold := by
+  induction ds with
+  | nil => simp only [detTypeLoop, Option.getD_some] at h; exact ⟨h, by simp⟩
+  | cons d rest ih =>
+    simp only [detTypeLoop] at h
+    split at h
+    · cases h
+    · next hne =>
+      have hd : t = d.type := by simpa using hne
+      obtain ⟨h1, h2⟩ := ih h
+      refine ⟨h1, ?_⟩
+      intro x hx
+      simp only [List.mem_cons] at hx
+      rcases hx with rfl | hx
+      · rw [← hd, h1]
+      · exact h2 x hx
+
+theorem detectionType_threshold_all (ds : List (AnyDet K)) (h : detectionType ds = .Threshold) :
+    ∀ d ∈ ds, d.type = .Threshold := by
+  cases ds with
+  | nil => simp [detectionType] at h
+  | cons d rest =>
+    simp only [detectionType, List.isEmpty_cons, Bool.false_eq_true, if_false, detTypeLoop] at h
+    obtain ⟨h1, h2⟩ := detTypeLoop_threshold_all rest _ h
+    intro x hx
+    simp only [List.mem_cons] at hx
+    rcases hx with rfl | hx
+    · exact h1
+    · exact h2 x hx
+
+end simPointwise
+
+/-! ### `simulate_detectors_sample` -/
+section samplePath
+variable {K : Type} [Field K] [LinearOrder K] [IsStrictOrderedRing K]
+
+theorem sampleLoop_fixed_ok (minP : K) (s : List ℕ) (ds : List (AnyDet K)) (acc : Dist (List ℕ) K) :
+    ∃ r, sampleLoop true minP s ds acc = .ok r := by
+  induction s generalizing ds acc with
+  | nil => exact ⟨acc, by simp [sampleLoop]⟩
+  | cons n s ih =>
+    cases ds with
+    | nil => exact ⟨acc, by simp [sampleLoop]⟩
+    | cons d ds =>
+      obtain ⟨r, hr⟩ := ih ds (tensor2 acc (lift1 (d.kernel minP n)))
+      refine ⟨r, ?_⟩
+      cases d <;> simpa [sampleLoop] using hr
+
+/-- the inner loop of `tensor_product` for one entry `x` of the left factor -/
+def t2inner (x : List ℕ × K) (b : Dist (List ℕ) K) (acc : Dist (List ℕ) K) : Dist (List ℕ) K :=
+  b.foldl (fun acc y => if x.2 * y.2 < 0 then acc else bump acc (x.1 ++ y.1) (x.2 * y.2)) acc
+
+theorem tensor2_eq (a b : Dist (List ℕ) K) :
+    tensor2 a b = if a.isEmpty then b else a.foldl (fun acc x => t2inner x b acc) [] := rfl
+
+theorem t2inner_cons (x : List ℕ × K) (y : List ℕ × K) (b : Dist (List ℕ) K) (acc : Dist (List ℕ) K) :
+    t2inner x (y :: b) acc
+      = t2inner x b (if x.2 * y.2 < 0 then acc else bump acc (x.1 ++ y.1) (x.2 * y.2)) := rfl
+
+theorem t2inner_spec (x : List ℕ × K) (hx : 0 ≤ x.2) (b : Dist (List ℕ) K) (hb : Nonneg b)
+    (acc : Dist (List ℕ) K) :
+    (∀ t, wt (t2inner x b acc) t
+        = wt acc t + x.2 * (b.map fun y => y.2 * (if x.1 ++ y.1 = t then 1 else 0)).sum) ∧
+      mass (t2inner x b acc) = mass acc + x.2 * mass b ∧
+      (Nonneg acc → Nonneg (t2inner x b acc)) := by
+  induction b generalizing acc with
+  | nil => simp [t2inner]
+  | cons y b ih =>
+    have hy : 0 ≤ y.2 := hb y (by simp)
+    obtain ⟨i1, i2, i3⟩ := ih (fun z hz => hb z (by simp [hz])) (bump acc (x.1 ++ y.1) (x.2 * y.2))
+    rw [t2inner_cons, if_neg (not_lt.mpr (mul_nonneg hx hy))]
+    refine ⟨?_, ?_, fun h => i3 (h.bump _ (mul_nonneg hx hy))⟩
+    · intro t
+      rw [i1 t, wt_bump]
+      simp only [List.map_cons, List.sum_cons]
+      by_cases h : x.1 ++ y.1 = t <;> simp [h] <;> ring
+    · rw [i2, mass_bump, mass_cons]; ring
+
+/-- `tensor_product` of a non-empty non-negative `a` with a non-negative `b` -/
+theorem tensor2_spec (a b : Dist (List ℕ) K) (ha : Nonneg a) (hb : Nonneg b) (hne : a ≠ []) :
+    (∀ t, wt (tensor2 a b) t
+        = (a.map fun x => x.2 * (b.map fun y => y.2 * (if x.1 ++ y.1 = t then 1 else 0)).sum).sum) ∧
+      mass (tensor2 a b) = mass a * mass b ∧ Nonneg (tensor2 a b) := by
+  have he : a.isEmpty = false := by cases a <;> simp_all
+  rw [tensor2_eq]
+  simp only [he, Bool.false_eq_true, if_false]
+  have key : ∀ (l : Dist (List ℕ) K), Nonneg l → ∀ acc : Dist (List ℕ) K,
+      (∀ t, wt (l.foldl (fun acc x => t2inner x b acc) acc) t
+        = wt acc t + (l.map fun x => x.2 * (b.map fun y => y.2 * (if x.1 ++ y.1 = t then 1 else 0)).sum).sum) ∧
+      mass (l.foldl (fun acc x => t2inner x b acc) acc) = mass acc + mass l * mass b ∧
+      (Nonneg acc → Nonneg (l.foldl (fun acc x => t2inner x b acc) acc)) := by
+    intro l
+    induction l with
+    | nil => intro _ acc; simp
+    | cons x l ih =>
+      intro hl acc
+      have hx : 0 ≤ x.2 := hl x (by simp)
+      obtain ⟨j1, j2, j3⟩ := t2inner_spec x hx b hb acc
+      obtain ⟨i1, i2, i3⟩ := ih (fun z hz => hl z (by simp [hz])) (t2inner x b acc)
+      simp only [List.foldl_cons]
+      refine ⟨?_, ?_, fun h => i3 (j3 h)⟩
+      · intro t
+        rw [i1 t, j1 t]
+        simp only [List.map_cons, List.sum_cons]; ring
+      · rw [i2, j2, mass_cons]; ring
+  obtain ⟨k1, k2, k3⟩ := key a ha []
+  refine ⟨fun t => by rw [k1 t]; simp [wt], by rw [k2]; simp, k3 (by intro e he'; simp at he')⟩
+
+theorem kprod_nil_ne (t : List ℕ) (h : t ≠ []) : kprod ([] : List (Dist ℕ K)) t = 0 := by
+  cases t with
+  | nil => exact absurd rfl h
+  | cons k u => rfl
+
+theorem kprod_snoc_nil (fs : List (Dist ℕ K)) (k : Dist ℕ K) : kprod (fs ++ [k]) [] = 0 := by
+  cases fs <;> rfl
+
+theorem kprod_snoc (fs : List (Dist ℕ K)) (k : Dist ℕ K) (u : List ℕ) (j : ℕ) :
+    kprod (fs ++ [k]) (u ++ [j]) = kprod fs u * wt k j := by
+  induction fs generalizing u with
+  | nil =>
+    cases u with
+    | nil => simp [kprod]
+    | cons a u' =>
+      simp only [List.nil_append, List.cons_append, kprod]
+      rw [kprod_nil_ne _ (by simp)]
+      simp
+  | cons d fs ih =>
+    cases u with
+    | nil => simp only [List.cons_append, List.nil_append, kprod, kprod_snoc_nil]; simp
+    | cons a u' => simp only [List.cons_append, kprod, ih u']; ring
+
+theorem lift1_sum (k : Dist ℕ K) (x : List ℕ) (t : List ℕ) :
+    ((lift1 k).map fun y => y.2 * (if x ++ y.1 = t then (1 : K) else 0)).sum
+      = (k.map fun e => e.2 * (if x ++ [e.1] = t then (1 : K) else 0)).sum := by
+  simp [lift1, List.map_map, Function.comp_def]
+
+/-- one step of the sampling loop on a non-empty accumulator whose weights are a kernel product -/
+theorem tensor2_lift_wt (a : Dist (List ℕ) K) (fs : List (Dist ℕ K)) (k : Dist ℕ K)
+    (ha : Nonneg a) (hk : Nonneg k) (hne : a ≠ []) (hw : ∀ t, wt a t = kprod fs t) (t : List ℕ) :
+    wt (tensor2 a (lift1 k)) t = kprod (fs ++ [k]) t := by
+  have hl : Nonneg (lift1 k) := by
+    intro e he
+    simp only [lift1, List.mem_map] at he
+    obtain ⟨x, hx, rfl⟩ := he
+    exact hk x hx
+  rw [(tensor2_spec a (lift1 k) ha hl hne).1 t]
+  simp only [lift1_sum]
+  rcases List.eq_nil_or_concat t with rfl | ⟨u, j, rfl⟩
+  · rw [kprod_snoc_nil]
+    simp
+  · rw [List.concat_eq_append, kprod_snoc, ← hw u]
+    simp only [List.append_singleton_inj]
+    have h1 : ∀ x : List ℕ × K,
+        (k.map fun e => e.2 * (if x.1 = u ∧ e.1 = j then (1 : K) else 0)).sum
+          = (if x.1 = u then 1 else 0) * wt k j := by
+      intro x
+      by_cases hx : x.1 = u
+      · simp only [hx, true_and, if_true, one_mul]
+        rw [sum_map_ite_key, mul_one]
+      · simp [hx]
+    simp only [h1]
+    have h2 : (a.map fun x => x.2 * ((if x.1 = u then (1 : K) else 0) * wt k j)).sum
+        = (a.map fun x => x.2 * (if x.1 = u then wt k j else 0)).sum := by
+      congr 1
+      apply List.map_congr_left
+      intro x _
+      by_cases hx : x.1 = u <;> simp [hx]
+    rw [h2, sum_map_ite_key]
+
+theorem sampleLoop_spec {minP : K} (hmin : minP ≤ 0) :
+    ∀ (s : List ℕ) (ds : List (AnyDet K)), (∀ d ∈ ds, d.WF) →
+      ∀ (fs : List (Dist ℕ K)) (acc : Dist (List ℕ) K),
+        (fs = [] → acc = []) →
+        (fs ≠ [] → Nonneg acc ∧ mass acc = 1 ∧ ∀ t, wt acc t = kprod fs t) →
+        fs ++ kernels minP ds s ≠ [] →
+        ∃ r, sampleLoop true minP s ds acc = .ok r ∧ Nonneg r ∧ mass r = 1 ∧
+          ∀ t, wt r t = kprod (fs ++ kernels minP ds s) t := by
+  intro s
+  induction s with
+  | nil =>
+    intro ds _ fs acc _ h2 hne
+    have hk : kernels minP ds [] = [] := by simp [kernels]
+    rw [hk, List.append_nil] at hne ⊢
+    obtain ⟨a1, a2, a3⟩ := h2 hne
+    exact ⟨acc, by simp [sampleLoop], a1, a2, a3⟩
+  | cons n s ih =>
+    intro ds hwf fs acc h1 h2 hne
+    cases ds with
+    | nil =>
+      have hk : kernels minP [] (n :: s) = [] := by simp [kernels]
+      rw [hk, List.append_nil] at hne ⊢
+      obtain ⟨a1, a2, a3⟩ := h2 hne
+      exact ⟨acc, by simp [sampleLoop], a1, a2, a3⟩
+    | cons d ds =>
+      have hkd := kernel_mass_one hmin d (hwf d (by simp)) n
+      have hk : kernels minP (d :: ds) (n :: s) = d.kernel minP n :: kernels minP ds s := rfl
+      have hstep : sampleLoop true minP (n :: s) (d :: ds) acc
+          = sampleLoop true minP s ds (tensor2 acc (lift1 (d.kernel minP n))) := by
+        cases d <;> simp [sampleLoop]
+      have hl : Nonneg (lift1 (d.kernel minP n)) := by
+        intro e he
+        simp only [lift1, List.mem_map] at he
+        obtain ⟨x, hx, rfl⟩ := he
+        exact hkd.2 x hx
+      have hlm : mass (lift1 (d.kernel minP n)) = 1 := by
+        rw [← hkd.1]
+        simp [lift1, mass, List.map_map, Function.comp_def]
+      have hacc' : Nonneg (tensor2 acc (lift1 (d.kernel minP n))) ∧
+          mass (tensor2 acc (lift1 (d.kernel minP n))) = 1 ∧
+          ∀ t, wt (tensor2 acc (lift1 (d.kernel minP n))) t = kprod (fs ++ [d.kernel minP n]) t := by
+        by_cases hfs : fs = []
+        · have : acc = [] := h1 hfs
+          subst this; subst hfs
+          have : tensor2 ([] : Dist (List ℕ) K) (lift1 (d.kernel minP n)) = lift1 (d.kernel minP n) := by
+            simp [tensor2]
+          rw [this]
+          exact ⟨hl, hlm, fun t => wt_lift _ t⟩
+        · obtain ⟨a1, a2, a3⟩ := h2 hfs
+          have hane : acc ≠ [] := by
+            intro h; rw [h] at a2; simp at a2
+          obtain ⟨_, m2, m3⟩ := tensor2_spec acc (lift1 (d.kernel minP n)) a1 hl hane
+          exact ⟨m3, by rw [m2, a2, hlm, mul_one],
+            fun t => tensor2_lift_wt acc fs _ a1 hkd.2 hane a3 t⟩
+      have := ih ds (fun x hx => hwf x (by simp [hx])) (fs ++ [d.kernel minP n])
+        (tensor2 acc (lift1 (d.kernel minP n))) (by simp) (fun _ => hacc') (by simp)
+      rw [hstep, hk]
+      simpa [List.append_assoc] using this
+
+/-- a detector of PNR type (unset, or `Detector.pnr()`) has the point kernel `n ↦ n` -/
+theorem kernel_of_pnr (minP : K) (d : AnyDet K) (h : d.type = .PNR) (n : ℕ) :
+    d.kernel minP n = [(n, 1)] := by
+  cases d with
+  | none => rfl
+  | det d =>
+    cases d with
+    | pnr => simp [AnyDet.kernel, AnyDet.detect, Det.detect, Det.type, DetOut.toDist]
+    | wired w mx =>
+      by_cases hw : w = 1 <;> simp [AnyDet.type, Det.type, hw] at h
+  | bs L r => simp [AnyDet.type] at h
+
+theorem kprod_pnr (minP : K) (ds : List (AnyDet K)) (h : ∀ d ∈ ds, d.type = .PNR)
+    (s : List ℕ) (hlen : s.length = ds.length) (t : List ℕ) :
+    kprod (kernels minP ds s) t = if s = t then 1 else 0 := by
+  induction ds generalizing s t with
+  | nil =>
+    have : s = [] := List.length_eq_zero_iff.mp hlen
+    subst this
+    cases t <;> simp [kernels, kprod]
+  | cons d ds ih =>
+    cases s with
+    | nil => simp at hlen
+    | cons n s =>
+      have hk : kernels minP (d :: ds) (n :: s) = d.kernel minP n :: kernels minP ds s := rfl
+      rw [hk, kernel_of_pnr minP d (h d (by simp))]
+      cases t with
+      | nil => simp [kprod]
+      | cons k u =>
+        simp only [kprod, wt, List.cons.injEq,
+          ih (fun d' hd' => h d' (by simp [hd'])) s (by simpa using hlen) u]
+        by_cases h1 : n = k <;> simp [h1]
+
+theorem detTypeLoop_pnr_all (ds : List (AnyDet K)) (t : DType)
+    (h : detTypeLoop (some t) ds = .PNR) : t = .PNR ∧ ∀ d ∈ ds, d.type = .PNR := by
+  induction ds with
+  | nil => simp only [detTypeLoop, Option.getD_some] at h; exact ⟨h, by simp⟩
+  | cons d rest ih =>
+    simp only [detTypeLoop] at h
+    split at h
+    · cases h
+    · next hne =>
+      have hd : t = d.type := by simpa using hne
+      obtain ⟨h1, h2⟩ := ih h
+      refine ⟨h1, ?_⟩
+      intro x hx
+      simp only [List.mem_cons] at hx
+      rcases hx with rfl | hx
+      · rw [← hd, h1]
+      · exact h2 x hx
+
+theorem detectionType_pnr_all (ds : List (AnyDet K)) (h : detectionType ds = .PNR) :
+    ∀ d ∈ ds, d.type = .PNR := by
+  cases ds with
+  | nil => simp
+  | cons d rest =>
+    simp only [detectionType, List.isEmpty_cons, Bool.false_eq_true, if_false, detTypeLoop] at h
+    obtain ⟨h1, h2⟩ := detTypeLoop_pnr_all rest _ h
+    intro x hx
+    simp only [List.mem_cons] at hx
+    rcases hx with rfl | hx
+    · exact h1
+    · exact h2 x hx
+
+end samplePath
+
+/-! ### `get_detection_type` loop -/
+section dtypeLoop
+variable {K : Type} [Field K] [LinearOrder K]
+
+theorem detTypeLoop_uniform (t : DType) (ds : List (AnyDet K)) (h : ∀ d ∈ ds, d.type = t) :
+    detTypeLoop (some t) ds = t := by
+  induction ds with
+  | nil => rfl
+  | cons d rest ih =>
+    have hd : d.type = t := h d (by simp)
+    simp only [detTypeLoop, hd, ne_eq, not_true_eq_false, if_false]
+    exact ih fun x hx => h x (by simp [hx])
+
+theorem detTypeLoop_mixed (t : DType) (ds : List (AnyDet K)) (h : ∃ d ∈ ds, d.type ≠ t) :
+    detTypeLoop (some t) ds = .Mixed := by
+  induction ds with
+  | nil => obtain ⟨d, hd, _⟩ := h; simp at hd
+  | cons d rest ih =>
+    by_cases hd : d.type = t
+    · simp only [detTypeLoop, hd, ne_eq, not_true_eq_false, if_false]
+      apply ih
+      obtain ⟨x, hx, hne⟩ := h
+      simp only [List.mem_cons] at hx
+      rcases hx with rfl | hx
+      · exact absurd hd hne
+      · exact ⟨x, hx, hne⟩
+    · have : t ≠ d.type := fun e => hd e.symm
+      simp [detTypeLoop, this]
+
+end dtypeLoop
 
 end PM.C08
